@@ -75,7 +75,7 @@ pub fn run(cfg: &Cfg, rep: &mut Report) {
     let mut rng = Rng::new(cfg.seed ^ 0xC10);
     let corpus = Corpus::load();
     rep.rule = "documents from the grammar/palette/bytes/corpus generators x random option vectors with raw HTML not passed through (unsafe_=false or escape=true); distinct_nontrivial counts distinct (node-kind sequence, option bits) classes with more than the Document node".into();
-    let n = if cfg.tier_thorough { 150_000 } else if cfg.full { 30_000 } else { 6_000 };
+    let n = if cfg.tier_thorough { 150_000 } else if cfg.full { 30_000 } else { 24_000 };
     let mut done = 0;
     while done < n {
         let mut bt = Batch::new();
